@@ -65,6 +65,9 @@ def handle (op : String) (j : Json) : Except String Json := do
     let m := Json.mkObj [("recs", Json.arr ((chunks.flatten).map mj).toArray), ("chunks", natList (chunks.map List.length))]
     let s := Json.mkObj [("recs", Json.arr ((recs.map (view names)).map sj).toArray)]
     pure (reply m (some s))
+  | "count" =>
+    -- `count_entries`: NumpyFileReader.read_chunks(min_chunk_size=500000), sum of chunk.count_entries()
+    pure (reply (Json.mkObj [("n", nat (countEntries oc on names 500000 body))]) (some (Json.mkObj [("n", nat recs.length)])))
   | "interval" =>
     let ds := readWhole oc on names body
     let iv := Json.arr ((alignmentToInterval Gen.C16.consumingCodes ds).map ivJ).toArray
